@@ -17,7 +17,7 @@ Verdict(ev) ==
         IF ~ArgsOk(ev) \/ ev.fn \notin {"encrypt", "decrypt", "mac"} \/ (ev.fn = "decrypt" /\ Len(ev.data) % 16 # 0) THEN "bad-event"
         ELSE IF ev.err # 0 THEN "adapter-raised"
         ELSE LET want == A!Pure(ev.fn, RoundKeys(ev.key), ev.iv, ev.data) IN
-             IF ev.out = want THEN "ok"
+             IF ev.out = want THEN (IF ev.alias # 0 THEN "result-object-shared-between-calls" ELSE "ok")
              ELSE IF ev.fn = "decrypt" /\ ev.out = A!StripZeros(want, Len(want)) THEN "decrypt-strips-trailing-zeros"
              ELSE "adapter-" \o ev.fn \o "-differs-from-pure-function"
     ELSE IF ev.op = "ad.rt" THEN
